@@ -302,8 +302,8 @@ def run(rep):
     from ..engines import dispatch
     dispatch.run(rep, core.library_facts(), "C02")
     rep.undecided += ["that each guard's condition is exactly the production's condition",
-                      "encoding legality (C05)", "absence of false fatal errors on well-formed input",
-                      "truncated multi-byte sequence at end of input (xcodeMoreChars) — observed by reading, outside every rule"]
+                      "encoding legality (C05; truncated input at end of stream is rule C05.e)",
+                      "absence of false fatal errors on well-formed input"]
     rep.assumptions += ["build configuration = the baseline's (ICU transcoder, in-memory message loader)",
                         "oracle: XML 1.0 5th ed. / XML 1.1 2nd ed. productions transcribed in verif/oracles/xmlchar.py"]
     return ("Static: character-class tables compared exhaustively with the productions; accessor/mask/table agreement; "
